@@ -16,6 +16,6 @@ open(p,'w').write(s.replace(old,new))
 PY
 trap 'git -C /repo checkout -- "$FILE"' EXIT
 for ID in ${IDS//,/ }; do
-  out=$(cd /verif && VERIF_SEED=${VERIF_SEED:-0} ./check "$ID" quick 2>&1); rc=$?
+  out=$(cd /verif && VERIF_EVIDENCE_DIR=/tmp/verif-mutant-evidence VERIF_SEED=${VERIF_SEED:-0} ./check "$ID" quick 2>&1); rc=$?
   echo "[$ID] rc=$rc :: $(echo "$out" | grep -E 'VIOLATION|check=|INCONCLUSIVE|^OK|error' | head -3 | tr '\n' ' ' | cut -c1-400)"
 done
